@@ -220,6 +220,7 @@ func runC02(w *vx.W) {
 		mixLen = 4
 	}
 	mixFamily(w, mixLen)
+	mixLongRuns(w, []int{0, 1, 2, 3, 4, 5, 6})
 	c10MixChains(w) // the same words as members of a chain: values and routing must not depend on an earlier member
 	tzFamily(w, "C02")
 	// developer fields in every number from 1 to 255 (sizes 1 and 3), on a known and on an unknown message, between
